@@ -216,7 +216,7 @@ func newVerifySetup(r *Rng, later bool, nclaims int) *verifySetup {
 		// other credentials of this issuer are revoked, some with nonces that share many low bits with the auth claim's:
 		// the non-revocation proof of the auth claim then has siblings and depends on every bit of the nonce it is checked for
 		for i := 0; i < r.Intn(5); i++ {
-			x := is.authNonce ^ (1 << uint(r.Intn(40))) // (keys agreeing on the low 40 bits cannot both be stored)
+			x := is.authNonce ^ (1 << uint(r.Intn(38))) // (keys agreeing on the low 39 bits cannot both be stored in a tree of 40 levels)
 			if r.Chance(30) {
 				x = r.U64()
 			}
